@@ -256,7 +256,7 @@ def header_task(P, prop, tier, out):
     for K in ("Count", "Sum", "Bin"):
         st = State()
         selfv = schema.make_instance(st, K, 1)
-        st.frames = [{"__module__": "histogrammar.defs"}]
+        st.frames = [{"%module": "histogrammar.defs"}]
         try:
             res = X.call_function(st, fi, [selfv], {})
         except Unsupported as e:
@@ -309,7 +309,7 @@ def fromjson_task(P, prop, tier, out):
     j = z3.Const("doc", core.Json)
     JM.tag_facts(st, j)
     st.add(JM.jtag(j) != JM.STR)  # the string form goes through json.loads (assumed)
-    st.frames = [{"__module__": "histogrammar.defs"}]
+    st.frames = [{"%module": "histogrammar.defs"}]
     try:
         res = X.call_function(st, fi, [VJson(j)], {})
     except Unsupported as e:
